@@ -211,6 +211,7 @@ package main
 //@ axiom hashTotal: forall a string, b string, ip string :: { HashLess(a, b, ip) } a != b ==> HashLess(a, b, ip) || HashLess(b, a, ip)
 
 //@ func (*layer2Controller).ShouldAnnounce$1
+//@   params i, j
 //@   requires 0 <= i && i < len(availableNodes) && 0 <= j && j < len(availableNodes)
 //@   ensures result == HashLess(availableNodes[i], availableNodes[j], ipString)
 
@@ -350,6 +351,7 @@ package main
 //@ axiom commIrrefl: forall a community.BGPCommunity :: { community.CommLess(a, a) } !community.CommLess(a, a)
 //@ axiom commTrans: forall a community.BGPCommunity, b community.BGPCommunity, c community.BGPCommunity :: { community.CommLess(a, b), community.CommLess(b, c) } community.CommLess(a, b) && community.CommLess(b, c) ==> community.CommLess(a, c)
 //@ func (*bgpController).SetBalancer$1
+//@   params i, j
 //@   requires ad != nil && 0 <= i && i < len(ad.Communities) && 0 <= j && j < len(ad.Communities)
 //@   ensures result == community.CommLess(ad.Communities[i], ad.Communities[j])
 
